@@ -4,7 +4,9 @@ entry points.
 Oracle (the property itself): to_boc -> {bytes, hex str, base64 str} -> {Cell, Slice, Builder}.one_from_boc and a
 structural comparison (hash, data bits, type, references, recursively over the DAG) with the original root.
 Correspondence: the Lean model of the input-form detection of `Boc.__init__` (Model/BocForms.lean, driver op bocinput)
-against `Boc(data).data`; the emitter model is tied byte-for-byte in C04 (same generators).
+against `Boc(data).data`; the emitter model is tied byte-for-byte in C04 (same generators); the parser + entry-point model
+(driver op bocone: Model/BocEntry.lean over Model/BocParse.lean) is run on every emitted bag <= 1500 bytes in all three input forms
+and must return the original root / its slice / builder image (the statement of c03_roundtrip across the model/library boundary).
 """
 import base64
 
@@ -14,29 +16,38 @@ from ..gen import bocdags as D
 SPEC = dict(
     manifest=dict(
         category='proof',
-        text='Lean proves the emit half and the input-form half of the round trip for ALL inputs. Emit (c03_emit_denotes = C04\'s c04_conforms): for every spec-valid typed tree of cells, each of the 6 '
-             'valid option sets and the order Cell.order computes, the bytes of the model of to_boc are accepted by an independent strict reader and denote exactly the same tree (bits, types, references '
-             'recursively; c03_same_tree_same_hash: the same tree has the identical hash). Input forms, for EVERY byte string: bytes.fromhex(b.hex()) = b, b64decode(b64encode(b)) = b, and the detection order '
-             'of Boc.__init__ cannot misclassify a BoC (the base64 text of each of the three magics starts te6cc / aP9l8 / rMOnK, i.e. has a non-hex character within its first two characters), so the '
-             'hex and base64 texts yield the same bytes as the raw bytes (c03_forms_hex, c03_forms_base64, c03_forms, c03_forms_emit). '
-             'NOT proved here: the library\'s PARSER (its model belongs to C05); the composition parse(to_boc t) = t is stated in Properties/C03.lean with the single lemma it needs from the parser model '
-             '(BocParse.deserialize_of_strict). Until then the parser half is covered by the oracle only: '
-             'every run round-trips generated DAGs through the LIBRARY alone: 6 option sets x 3 input forms x 3 entry points with a structural comparison of the whole DAG.',
-        level_note='Trusted: Lean kernel (propext, Classical.choice, Quot.sound); Model/BocEmit.lean and Model/BocForms.lean as hand transcriptions (tied by sampled correspondence in C04 / here); '
-                   'base64/binascii/bytes.fromhex behave as modelled; the parser half is NOT proved here (sampled round trips only: ~12k per quick run incl. 255/256/257 cells, payload 127..65536 bytes, '
-                   'depth-1023 chains, exotic cells, maximal sharing; thorough: 65535/65536/70000 cells).',
-        technique='Lean 4 proof (hand model) of the emit and input-form halves + full round trip through the library as oracle + differential correspondence',
+        text='Lean proves THE ROUND TRIP for ALL inputs (c03_roundtrip): for every spec-valid typed tree of cells t (any kinds incl. pruned/library/Merkle cells, any nesting and sharing; C02\'s TreeWF), '
+             'the object graph p that Cell.__init__ builds, under the local no-collision hypothesis on the hashes of its sub-cells, every fuel for which the model of Cell.order returns, each of the 6 valid '
+             'option sets (index, CRC, cache bits with the index) and within the format\'s own limits (< 2^32 cells, doubled payload < 2^64): the model of to_boc returns bytes bs, and the model of Cell.from_boc '
+             '(header, cell records, rebuild loop, cell constructor) on bs, on bs.hex() and on b64encode(bs) - input-form detection modelled twice (Model/BocForms.lean with CPython\'s non-strict base64 decoder, '
+             'and Model/BocParse.lean) and proved to agree on these texts - returns exactly ONE root (t\', i\') with t\' = t (identical data bits, cell types and references, recursively) and i\' = p.info '
+             '(identical cached hashes, depths, level mask: identical hash). Route: the emitted bytes are shown to BE the parser-side spec encoder Spec.BocEncode.encodeWith for the freedoms the library uses '
+             '(generic magic, minimal size width, minimal offset width from the doubled length with cache bits, no stored hashes, one root) on a Valid listing that denotes the unfoldings of the ordered cells, '
+             'then C05\'s c05_accepts applies. Entry points (Model/BocEntry.lean): c03_entry_cell - Cell.one_from_boc returns that root; c03_entry_slice - Slice.one_from_boc returns the slice holding all '
+             'data bits and references of the root; c03_entry_builder - Builder.one_from_boc returns the builder holding exactly the root\'s bits and references when the root is ordinary and RAISES when the root is '
+             'exotic (known finding builder-entry:exotic-root-refused, proved to be the only failure). Non-vacuity: a DAG with a leaf shared by three parents meets all hypotheses (toy hash id). Also kept: '
+             'c03_emit_denotes (= c04_conforms, independent strict reader), c03_forms* (fromhex(b.hex()) = b, b64decode(b64encode(b)) = b, the base64 text of a BoC magic is never valid hex) for every byte string. '
+             'Every run additionally round-trips generated DAGs through the LIBRARY alone (6 option sets x 3 input forms x 3 entry points, structural comparison of the whole DAG) and runs the Lean '
+             'parser/entry model on the library\'s emitted bytes (all three forms and entries), which must return the original root.',
+        level_note='Trusted: Lean kernel (propext, Classical.choice, Quot.sound); the hand models Model/BocEmit.lean (tied byte-for-byte in C04), Model/BocParse.lean (tied differentially in C05 and here on '
+                   'every emitted bag <= 1500 bytes), Model/BocForms.lean (bocinput correspondence), Model/BocEntry.lean (bocone correspondence) and Model/Cell.lean (constructor, C01/C02); '
+                   'base64/binascii/bytes.fromhex behave as modelled; SHA-256 abstract (arbitrary H) with the local NoCollision hypothesis; bounds 2^32 cells / 2^63 payload bytes are the format\'s. '
+                   'Sampled only: model <-> library agreement (~15k model round trips + ~16k library round trips per quick run incl. 255/256/257 cells, payload 127..65536 bytes, depth-1023 chains, exotic cells, '
+                   'maximal sharing; thorough: 65535/65536/70000 cells).',
+        technique='Lean 4 proof (hand models of emitter and parser composed through the spec encoder) + full round trip through the library as oracle + differential correspondence of every model',
     ),
     design_ref='DESIGN.md §6 C03',
     rule='same DAG generators as C04; each DAG x 6 option sets x {bytes, hex, base64} x {Cell, Slice, Builder}.one_from_boc (large DAGs: all option sets through Cell/bytes, one option set '
          'through all forms and entry points); distinct = distinct (dag, root, option set, form, entry); non-trivial = more than one cell or non-empty data',
-    trusted_base=['Model/BocForms.lean mirrors the bytes / hex / base64 detection of Boc.__init__ by hand',
+    trusted_base=['Model/BocForms.lean mirrors the bytes / hex / base64 detection of Boc.__init__ by hand (bocinput correspondence)',
                   'Model/BocEmit.lean mirrors Cell.order / serialize / to_boc (correspondence in C04)',
-                  'the parser is exercised only through the library (model owned by C05)'],
-    assumptions=['bytes.fromhex / base64.b64decode behave as modelled', 'round trips are sampled (oracle), not proved, for the parser half'],
+                  'Model/BocParse.lean mirrors deserialize_boc_header / deserialize_cell / deserialize (correspondence in C05 and, on emitted bags, here)',
+                  'Model/BocEntry.lean mirrors the three one_from_boc class methods, begin_parse and to_builder (bocone correspondence)'],
+    assumptions=['bytes.fromhex / base64.b64decode behave as modelled', 'SHA-256 is abstract: theorems hold for every H under the local NoCollision hypothesis on the cells at hand'],
 )
 
 FORMS = ('bytes', 'hex', 'base64')
+MODEL_MAX_BYTES = 1500          # the Lean parser/entry model is run on every emitted bag up to this size
 ENTRIES = ('cell', 'slice', 'builder')
 
 
@@ -107,6 +118,24 @@ def check_result(entry, res, rootc):
     return same_dag(rootc, back)
 
 
+def model_expected(entry, rootc):
+    """what the Lean model of `<entry>.one_from_boc` (driver op bocone, Model/BocEntry.lean on Model/BocParse.lean and
+    Model/BocForms.lean) must answer on any input form of to_boc(rootc): the ORIGINAL root (the statement of c03_roundtrip /
+    c03_entry_* across the model/library boundary: the library's bytes, the model's parser)."""
+    from .C05 import canon
+    if entry == 'cell':
+        return 'ok ' + canon([rootc])
+    if entry == 'builder' and rootc.type_ != -1:
+        return 'err'
+    return 'ok ' + (rootc.bits.to01() or '-') + ';' + ('.'.join(r.hash.hex() for r in rootc.refs) or '-')
+
+
+def model_line(entry, form, data):
+    if form == 'bytes':
+        return f'bocone {entry} b {data.hex() or "-"}'
+    return f'bocone {entry} s {data.encode().hex() or "-"}'
+
+
 def check_case(ctx, tag, nodes, root, big=False, opts=D.OPTS, forms=FORMS, entries=ENTRIES):
     if root is None:
         root = len(nodes) - 1
@@ -134,6 +163,10 @@ def check_case(ctx, tag, nodes, root, big=False, opts=D.OPTS, forms=FORMS, entri
                 ctx.case((tag, root, o, form, entry, b[:48], len(b)), nontrivial=nt,
                          sample={'tag': tag, 'opts': '%d%d%d' % o, 'form': form, 'entry': entry, 'boc_len': len(b)})
                 ctx.count(f'{form}/{entry}')
+                if len(b) <= MODEL_MAX_BYTES and ctx.driver_ok:
+                    ctx.expect_model(model_line(entry, form, data), model_expected(entry, rootc),
+                                     f'model of {entry}.one_from_boc({form}) on the library bytes of {tag} opts {o}')
+                    ctx.count('model-roundtrip')
                 try:
                     res = parse_entry(entry, data)
                 except Exception as e:
